@@ -1,38 +1,47 @@
-(* Model of the hard-link coordination in /repo/src/sync/transfer.rs (Transferrer::create), following the two repairs
-   `fix: hard-link waiters register for the completion notice before re-checking the inode state` and
-   `fix: a failed first copy of a hard-link group releases the inode instead of leaving it in progress`:
+(* Model of the hard-link coordination in /repo/src/sync/transfer.rs (Transferrer::create), following the repairs
+   `fix: hard-link waiters register for the completion notice before re-checking the inode state`,
+   `fix: a failed first copy of a hard-link group releases the inode instead of leaving it in progress` and
+   `fix: a hard-link waiter only waits on the notice of the copy that is in progress now`:
    the workers of ONE link group share map[inode] in {absent, InProgress(notify), Completed(path)}.
-   tokio::sync::Notify is modelled by an epoch counter: notify_waiters() increments it; a Notified future
-   records the epoch at its creation and is ready once the epoch is larger (tokio's documented semantics:
-   notify_waiters wakes exactly the futures created before the call, stores no permit).
+
+   Every claim creates its OWN tokio::sync::Notify; a worker claims at most once, so a notice is identified by the index
+   of the worker that created it.  The owner calls notify_waiters() on its notice exactly once -- after recording the
+   completion, or after giving the inode up when its copy failed -- and then returns: notice o has FIRED iff worker o has
+   returned as an owner (POkOwner / PErrOwner).  A Notified future is woken by the notify_waiters() calls made after its
+   creation (tokio's documented semantics: no permit is stored): a future created after its notice has fired -- [late] --
+   is never woken.
+
    A schedule is a list of (worker, fails) choices: one atomic step of that worker per choice.
-   [fused = true] makes "read the map" and "create the Notified future" one atomic step (no preemption
-   between them, as on a single-threaded executor); [fused = false] allows the gap (multi-thread runtime).
+   [fused = true] makes "read the map" and "create the Notified future" one atomic step (single-threaded executor);
+   [fused = false] allows preemption between them (multi-thread runtime).
+   [strict = true] is the code as it is: after registering, a waiter awaits only if the map still holds the SAME notice it
+   registered with; [strict = false] is the code before the third repair (any InProgress entry counted).
    No proofs in this file. *)
 From Coq Require Import List Bool Arith.
 Import ListNotations.
 
-Inductive mstate : Type := MAbsent | MInProgress | MCompleted (owner : nat).
+Inductive mstate : Type := MAbsent | MInProgress (owner : nat) | MCompleted (owner : nat).
 
 Inductive pc : Type :=
-| PRead                       (* about to lock the map and read the inode's state *)
-| PGap                        (* saw InProgress, has not yet created the Notified future *)
-| PEnabled (e : nat)          (* created and enabled its Notified future at epoch e; about to look at the map again *)
-| PWait (e : nat)             (* awaiting notified(), created at epoch e *)
-| PClaim                      (* saw absent; about to lock, double-check and insert InProgress *)
-| PCopy                       (* owner: copy_file / write_xattrs / write_acls (each may fail) *)
-| PRelease                    (* owner whose copy failed: remove the inode from the map *)
-| PReleaseNotify              (* ... then notify_waiters() and return the error *)
-| PDone                       (* owner: insert Completed *)
-| PNotify                     (* owner: notify_waiters() *)
-| PLink (owner : nat)         (* create_hardlink(first_path, dest) (may fail with `?`) *)
-| POkOwner                    (* returned Ok after copying the file itself *)
-| POkLinked (owner : nat)     (* returned Ok after hard-linking to the owner's destination *)
-| PErr.                       (* returned Err *)
+| PRead                             (* about to lock the map and read the inode's state *)
+| PGap (o : nat)                    (* saw InProgress(notice o), has not yet created the Notified future *)
+| PEnabled (o : nat) (late : bool)  (* created and enabled its Notified future on notice o; about to look at the map again *)
+| PWait (o : nat) (late : bool)     (* awaiting that future *)
+| PClaim                            (* saw absent; about to lock, double-check and insert InProgress with a new notice *)
+| PCopy                             (* owner: copy_file / write_xattrs / write_acls (each may fail) *)
+| PRelease                          (* owner whose copy failed: remove the inode from the map *)
+| PReleaseNotify                    (* ... then notify_waiters() and return the error *)
+| PDone                             (* owner: insert Completed *)
+| PNotify                           (* owner: notify_waiters() *)
+| PLink (owner : nat)               (* create_hardlink(first_path, dest) (may fail with `?`) *)
+| POkOwner                          (* returned Ok after copying the file itself *)
+| POkLinked (owner : nat)           (* returned Ok after hard-linking to the owner's destination *)
+| PErr                              (* returned Err without ever owning the inode *)
+| PErrOwner.                        (* returned Err after giving the inode up and notifying *)
 
-Record st : Type := mk_st { s_map : mstate; s_epoch : nat; s_pcs : list pc }.
+Record st : Type := mk_st { s_map : mstate; s_pcs : list pc }.
 
-Definition init (n : nat) : st := mk_st MAbsent 0 (repeat PRead n).
+Definition init (n : nat) : st := mk_st MAbsent (repeat PRead n).
 
 Fixpoint set_nth (l : list pc) (i : nat) (v : pc) : list pc :=
   match l, i with
@@ -41,97 +50,101 @@ Fixpoint set_nth (l : list pc) (i : nat) (v : pc) : list pc :=
   | x :: t, S i' => x :: set_nth t i' v
   end.
 
-Definition terminal (p : pc) : bool := match p with POkOwner | POkLinked _ | PErr => true | _ => false end.
+Definition terminal (p : pc) : bool := match p with POkOwner | POkLinked _ | PErr | PErrOwner => true | _ => false end.
+
+(* notice o has fired: its owner has called notify_waiters() *)
+Definition fired_in (pcs : list pc) (o : nat) : bool :=
+  match nth_error pcs o with Some POkOwner | Some PErrOwner => true | _ => false end.
+Definition fired (s : st) (o : nat) : bool := fired_in (s_pcs s) o.
 
 (* one step of worker i; [fails] = the fallible operation at this point returns an error;
-   None = the worker cannot move (terminal, or its Notified future is not ready) *)
-Definition step (fused : bool) (s : st) (i : nat) (fails : bool) : option st :=
+   None = the worker cannot move (it has returned, or its Notified future is not ready) *)
+Definition step (fused strict : bool) (s : st) (i : nat) (fails : bool) : option st :=
   match nth_error (s_pcs s) i with
   | None => None
   | Some p =>
-      let upd p' := Some (mk_st (s_map s) (s_epoch s) (set_nth (s_pcs s) i p')) in
+      let upd p' := Some (mk_st (s_map s) (set_nth (s_pcs s) i p')) in
       match p with
       | PRead => match s_map s with
                  | MCompleted o => upd (PLink o)
-                 | MInProgress => if fused then upd (PEnabled (s_epoch s)) else upd PGap
+                 | MInProgress o => if fused then upd (PEnabled o (fired s o)) else upd (PGap o)
                  | MAbsent => upd PClaim
                  end
-      | PGap => upd (PEnabled (s_epoch s))
-      | PEnabled e => match s_map s with
-                      | MInProgress => upd (PWait e)        (* still in progress: await the (already registered) future *)
-                      | _ => upd PRead                      (* finished or released meanwhile: look again *)
-                      end
-      | PWait e => if Nat.ltb e (s_epoch s) then upd PRead else None
+      | PGap o => upd (PEnabled o (fired s o))
+      | PEnabled o late =>
+          match s_map s with
+          | MInProgress o' => if strict && negb (Nat.eqb o' o) then upd PRead        (* another copy is in progress now: look again *)
+                              else upd (PWait o late)                                (* await the (already registered) future *)
+          | _ => upd PRead                                                           (* finished or released meanwhile: look again *)
+          end
+      | PWait o late => if negb late && fired s o then upd PRead else None
       | PClaim => match s_map s with
-                  | MAbsent => Some (mk_st MInProgress (s_epoch s) (set_nth (s_pcs s) i PCopy))
+                  | MAbsent => Some (mk_st (MInProgress i) (set_nth (s_pcs s) i PCopy))
                   | _ => upd PRead
                   end
       | PCopy => if fails then upd PRelease else upd PDone
-      | PRelease => Some (mk_st MAbsent (s_epoch s) (set_nth (s_pcs s) i PReleaseNotify))
-      | PReleaseNotify => Some (mk_st (s_map s) (S (s_epoch s)) (set_nth (s_pcs s) i PErr))
-      | PDone => Some (mk_st (MCompleted i) (s_epoch s) (set_nth (s_pcs s) i PNotify))
-      | PNotify => Some (mk_st (s_map s) (S (s_epoch s)) (set_nth (s_pcs s) i POkOwner))
+      | PRelease => Some (mk_st MAbsent (set_nth (s_pcs s) i PReleaseNotify))
+      | PReleaseNotify => upd PErrOwner
+      | PDone => Some (mk_st (MCompleted i) (set_nth (s_pcs s) i PNotify))
+      | PNotify => upd POkOwner
       | PLink o => if fails then upd PErr else upd (POkLinked o)
-      | POkOwner | POkLinked _ | PErr => None
+      | POkOwner | POkLinked _ | PErr | PErrOwner => None
       end
   end.
 
-Fixpoint run_sched (fused : bool) (s : st) (sched : list (nat * bool)) : st :=
+Fixpoint run_sched (fused strict : bool) (s : st) (sched : list (nat * bool)) : st :=
   match sched with
   | [] => s
-  | (i, f) :: t => match step fused s i f with Some s' => run_sched fused s' t | None => run_sched fused s t end
+  | (i, f) :: t => match step fused strict s i f with Some s' => run_sched fused strict s' t | None => run_sched fused strict s t end
   end.
 
 Definition all_terminal (s : st) : bool := forallb terminal (s_pcs s).
 
 (* no worker can move although some have not returned: the run hangs forever *)
-Definition deadlocked (fused : bool) (s : st) : bool :=
+Definition deadlocked (fused strict : bool) (s : st) : bool :=
   negb (all_terminal s) &&
-  forallb (fun i => match step fused s i false with None => true | Some _ => false end) (seq 0 (length (s_pcs s))).
+  forallb (fun i => match step fused strict s i false with None => true | Some _ => false end) (seq 0 (length (s_pcs s))).
 
-(* ---------- exhaustive exploration (finite: the epoch grows at most once per owner) ---------- *)
-Fixpoint pc_eqb (a b : pc) : bool :=
+(* ---------- exhaustive exploration of small groups (a cross-check of the general proofs) ---------- *)
+Definition pc_eqb (a b : pc) : bool :=
   match a, b with
-  | PRead, PRead | PGap, PGap | PClaim, PClaim | PCopy, PCopy | PDone, PDone | PNotify, PNotify | POkOwner, POkOwner | PErr, PErr
-  | PRelease, PRelease | PReleaseNotify, PReleaseNotify => true
-  | PEnabled x, PEnabled y => Nat.eqb x y
+  | PRead, PRead | PClaim, PClaim | PCopy, PCopy | PDone, PDone | PNotify, PNotify | POkOwner, POkOwner | PErr, PErr
+  | PRelease, PRelease | PReleaseNotify, PReleaseNotify | PErrOwner, PErrOwner => true
+  | PGap x, PGap y => Nat.eqb x y
+  | PEnabled x l, PEnabled y k => Nat.eqb x y && Bool.eqb l k
+  | PWait x l, PWait y k => Nat.eqb x y && Bool.eqb l k
   | POkLinked x, POkLinked y => Nat.eqb x y
-  | PWait x, PWait y => Nat.eqb x y
   | PLink x, PLink y => Nat.eqb x y
   | _, _ => false
   end.
 Fixpoint pcs_eqb (a b : list pc) : bool :=
   match a, b with [], [] => true | x :: a', y :: b' => pc_eqb x y && pcs_eqb a' b' | _, _ => false end.
 Definition m_eqb (a b : mstate) : bool :=
-  match a, b with MAbsent, MAbsent | MInProgress, MInProgress => true | MCompleted x, MCompleted y => Nat.eqb x y | _, _ => false end.
-Definition st_eqb (a b : st) : bool := m_eqb (s_map a) (s_map b) && Nat.eqb (s_epoch a) (s_epoch b) && pcs_eqb (s_pcs a) (s_pcs b).
+  match a, b with MAbsent, MAbsent => true | MInProgress x, MInProgress y => Nat.eqb x y | MCompleted x, MCompleted y => Nat.eqb x y | _, _ => false end.
+Definition st_eqb (a b : st) : bool := m_eqb (s_map a) (s_map b) && pcs_eqb (s_pcs a) (s_pcs b).
 
-Definition succs (fused : bool) (faults : bool) (s : st) : list st :=
+Definition succs (fused strict : bool) (faults : bool) (s : st) : list st :=
   flat_map (fun i =>
-    (match step fused s i false with Some s' => [s'] | None => [] end) ++
-    (if faults then match step fused s i true with Some s' => [s'] | None => [] end else []))
+    (match step fused strict s i false with Some s' => [s'] | None => [] end) ++
+    (if faults then match step fused strict s i true with Some s' => [s'] | None => [] end else []))
     (seq 0 (length (s_pcs s))).
 
-Fixpoint explore (fuel : nat) (fused faults : bool) (seen frontier : list st) : list st * bool :=
+Fixpoint explore (fuel : nat) (fused strict faults : bool) (seen frontier : list st) : list st * bool :=
   match fuel with
   | O => (seen, false)                         (* out of fuel: exploration incomplete *)
   | S f =>
       match frontier with
       | [] => (seen, true)
       | s :: rest =>
-          if existsb (st_eqb s) seen then explore f fused faults seen rest
-          else explore f fused faults (s :: seen) (succs fused faults s ++ rest)
+          if existsb (st_eqb s) seen then explore f fused strict faults seen rest
+          else explore f fused strict faults (s :: seen) (succs fused strict faults s ++ rest)
       end
   end.
-
-(* every reachable state of n workers is free of deadlock; the bool also says the exploration completed *)
-Definition deadlock_free (fuel n : nat) (fused faults : bool) : bool :=
-  let '(seen, complete) := explore fuel fused faults [] [init n] in
-  complete && negb (existsb (deadlocked fused) seen).
 
 (* the link structure of a finished run: every worker that returned Ok either is THE owner recorded in the map (it copied
    the file) or hard-linked to that owner's destination; workers that returned an error created nothing; when no owner
    completed, nobody returned Ok *)
+Definition failed (p : pc) : bool := match p with PErr | PErrOwner => true | _ => false end.
 Definition structure_ok (s : st) : bool :=
   negb (all_terminal s) ||
   match s_map s with
@@ -139,13 +152,13 @@ Definition structure_ok (s : st) : bool :=
       forallb (fun ip => match snd ip with
                          | POkOwner => Nat.eqb (fst ip) o
                          | POkLinked o' => Nat.eqb o' o && negb (Nat.eqb (fst ip) o)
-                         | PErr => negb (Nat.eqb (fst ip) o)
+                         | PErr | PErrOwner => negb (Nat.eqb (fst ip) o)
                          | _ => false
                          end) (combine (seq 0 (length (s_pcs s))) (s_pcs s)) &&
       match nth_error (s_pcs s) o with Some POkOwner => true | _ => false end
-  | _ => forallb (fun p => match p with PErr => true | _ => false end) (s_pcs s)
+  | _ => forallb failed (s_pcs s)
   end.
 
 (* closure of a finite set of states under every step, checked by computation *)
-Definition closed (fused faults : bool) (seen : list st) : bool :=
-  forallb (fun s => forallb (fun s' => existsb (st_eqb s') seen) (succs fused faults s)) seen.
+Definition closed (fused strict faults : bool) (seen : list st) : bool :=
+  forallb (fun s => forallb (fun s' => existsb (st_eqb s') seen) (succs fused strict faults s)) seen.
